@@ -187,8 +187,11 @@ func randomScript(r *rand.Rand, stub bool) []stepT {
 			return "go"
 		default:
 			// clocks at their edges: nothing left, only the opponent's clock given, movestogo alone
+			// ... and tokens the driver does not act on, before and after the ones it does
 			return []string{"go wtime 0 btime 0", "go wtime 0 btime 5000 movestogo 5", "go wtime 5000 btime 0", "go movestogo 20",
-				"go wtime 30000", "go btime 30000", "go wtime 1 btime 1 movestogo 1", fmt.Sprintf("go depth %d", 1+r.Intn(2))}[r.Intn(8)]
+				"go wtime 30000", "go btime 30000", "go wtime 1 btime 1 movestogo 1", fmt.Sprintf("go depth %d", 1+r.Intn(2)),
+				"go wtime 500 btime 500 winc 10 binc 10", "go nodes 5000 depth 1", "go mate 2 depth 2", "go ponder depth 1",
+				"go searchmoves e2e4 d2d4 depth 1", "go depth 1 nodes 100", "go winc 5 binc 5 wtime 200 btime 200 movestogo 3"}[r.Intn(15)]
 		}
 	}
 	for i := 0; i < n; i++ {
@@ -734,7 +737,8 @@ func realScript(r *rand.Rand) []stepT {
 			steps = append(steps, stepT{Kind: "cmd", Arg: fmt.Sprintf("go movetime %d", 1+r.Intn(20))})
 		case 2:
 			steps = append(steps, stepT{Kind: "cmd", Arg: []string{fmt.Sprintf("go wtime %d btime %d", 50+r.Intn(500), 50+r.Intn(500)),
-				"go wtime 0 btime 0", "go movestogo 10", "go wtime 400", "go btime 400"}[r.Intn(5)]})
+				"go wtime 0 btime 0", "go movestogo 10", "go wtime 400", "go btime 400", "go wtime 300 btime 300 winc 10 binc 10",
+				"go nodes 2000 depth 1", "go mate 2 depth 1", "go searchmoves e2e4 depth 1"}[r.Intn(9)]})
 		default:
 			steps = append(steps, stepT{Kind: "cmd", Arg: fmt.Sprintf("go depth %d", 1+r.Intn(2))})
 		}
